@@ -52,7 +52,7 @@ class Programs:
         fams = ['transpose', 'newaxis', 'query', 'query', 'dataset', 'scalar_op', 'setitem']
         if nd and all(len(l) for l in a['labels']): fams += ['fork', 'fork']
         if nd: fams += ['swapaxes', 'get', 'get', 'reduce', 'cum', 'diff', 'sort_axis', 'reindex', 'take_axis', 'rename', 'set_label',
-                        'set_dims', 'flatten', 'squeeze', 'fillna', 'dropna', 'binop', 'align']
+                        'set_dims', 'set_axis', 'flatten', 'squeeze', 'fillna', 'dropna', 'binop', 'align']
         f = force or rng.choice(fams)
         if not force and nd >= 2 and any(len(l) == 0 for l in a['labels']) and rng.random() < 0.4: f = 'flatten'    # grouped axes without labels
         if not force: stats['program_op'][f] += 1
@@ -104,6 +104,14 @@ class Programs:
             others = [x for k_, x in enumerate(labs) if k_ != j]
             new = (cur + 1000) if not isinstance(cur, str) else cur + 'z'
             return ['set_label', d, j, new]
+        if f == 'set_axis':
+            if ',' in d or any(isinstance(x, (list, tuple)) for x in labs): return ['query', 'repr']      # (grouped axes are not relabelled)
+            kk = rng.choice(['i', 'f', 'O'])
+            new = rand_labels(rng, len(labs) if rng.random() < 0.92 else len(labs) + 1, kk, 'shuf')
+            u = rng.random()
+            # the new name: none, a fresh one, the axis' own, or (refused) the name of another dimension
+            nm = None if u < 0.4 else fresh if u < 0.7 else d if u < 0.8 else dims[(i + 1) % nd] if nd > 1 else None
+            return ['set_axis', d if rng.random() < 0.5 else i, new, kk, nm, rng.random() < 0.5]
         if f == 'set_dims':
             u = rng.random()
             if nd >= 1 and rng.random() < 0.4:
